@@ -244,6 +244,7 @@ def run(ctx):
         for fi in (cm.enc['v'], cm.dec['v']):
             for p in cm.paths(fi, le):
                 R.check_threading(ctx, cm, 'C19.D6', fi, le, p, fi.name)
+    R.signature_length_limit(ctx, cm, 'C19.D6')
     ctx.floor('C19.D6', 10)
     ctx.floor('C19.D1', 10)
     ctx.floor('C19.D2', 8)
